@@ -98,14 +98,12 @@ def run(eng: Engine, ck: Check):
 
     # the emission that precedes the completion loop must not be able to raise: a failing listener (application code) would otherwise
     # propagate out of on_message_received and the reply would never complete its requests
+    from . import defs
     escm = eng.escape()
-    em_fn = eng.func('events.py', 'EventBus.emit')
-    ck.visited(em_fn)
-    leaked = sorted(escm.of(em_fn))
-    ck.ob('R-C12-MATCH', em_fn, em_fn.node, 'EventBus.emit contains every listener failure: calling AND awaiting a listener happen inside the try that logs and goes on '
-          '(on_message_received awaits emit() before it completes the waiting requests)', not leaked,
-          f'exceptions can leave emit(): {leaked} — an async listener that raises while a reply is being handled aborts on_message_received before the '
-          'completion loop; every request waiting for that reply times out although it was answered', construct='emit contains listener failures')
+    defs.event_bus_emit_contains(eng, ck, 'R-C12-MATCH', 'on_message_received awaits emit() before it completes the waiting requests: every request waiting for that '
+                                 'reply would time out although it was answered')
+    defs.identity_semantics(eng, ck, 'R-C12-REMOVE', [('ExpectedResponse', NET)], 'the done-callback removes the finished waiter with `in` / list.remove(); two '
+                            'requests for the same message are different waiters')
     emits = [x for x in calls_on(omr.node, 'emit')]
     pre = []
     for st in omr.node.body:
